@@ -11,64 +11,64 @@ BASELINE = "cd /repo && /venv/bin/python -m pytest -ra -q -p no:cacheprovider --
 # id -> (category, technique, text, note, design_ref)
 CHECKS = {
     "C01": ("exploration", "bounded-exhaustive enumeration of networks x back-ends; exact polynomial normal form vs reference mass-action model",
-            "Every network of the stated alphabets (single reactions with 1-3 reactants incl. repeats/catalysts/ions/surface/grain, all ordered pairs incl. duplicates and E/e- spellings, every subset of the 11 cooling processes, bundled files and all pairwise file merges) is rendered by the real TemplateLoader for all 4 back-ends; each emitted ydot is read into an exact Laurent polynomial and compared with the reference mass-action law, so each explored network is decided for all abundance vectors and rate values.",
+            "Every network of the stated alphabets (single reactions with 1-3 reactants incl. repeats/catalysts/ions/surface/grain, all ordered pairs incl. duplicates and E/e- spellings, every subset of the 11 cooling processes, bundled files and all pairwise file merges) is rendered by the real TemplateLoader for all 4 back-ends; each emitted ydot is read into an exact Laurent polynomial and compared with the reference mass-action law, so each explored network is decided for all abundance vectors and rate values. Placeholder reactions given a law by a rate modifier, a 15-species/19-reaction network and long-name networks are part of the space; the temperature equation's symbols are bound by compiling the dense sources (d(Tgas)/dt vs the law with n = sum of species, k_B, gamma, compiled kc; GetMu/GetGamma helpers).",
             "Trusts the E4 reader (bound to g++ whenever it refuses text), the documented alias rule, and my decoders for the bundled files. Network sizes beyond the alphabets are covered only by bundled files.", "DESIGN.md §2 C01"),
     "C02": ("exploration", "bounded-exhaustive enumeration; exact symbolic differentiation of the parsed emitted RHS vs parsed Jacobian entries",
-            "For every enumerated network and ODE-modifier shape (0-3 dependencies, repeats) and every back-end, each emitted Jacobian entry is compared with the exact derivative of the emitted RHS polynomial and every omitted entry is shown to have derivative identically zero.",
+            "For every enumerated network and ODE-modifier shape (0-3 dependencies, repeats) and every back-end, each emitted Jacobian entry is compared with the exact derivative of the emitted RHS polynomial and every omitted entry is shown to have derivative identically zero. The Odeint functor's d(rhs)/dt output is compiled and executed on NaN-poisoned storage (all NEQUATIONS entries exactly 0).",
             "Differentiates the emitted RHS, so independent of C01. npar/gamma/kc held fixed as the property states.", "DESIGN.md §2 C02"),
     "C03": ("exploration", "bounded-exhaustive enumeration; CSR invariants, cross-back-end equality of (row,col,polynomial) sets, constant-evaluated subscript bounds, pattern file",
             "Every enumerated network (incl. the empty network, isolated species, thermal on/off) is rendered for dense/sparse/cusparse/rosenbrock4 with pattern output; CSR well-formedness, equality of stored entries across back-ends, every subscript against the declared sizes, and the pattern file are checked on each.",
-            "Subscripts are compile-time constants evaluated through the rendered macros; the cuSPARSE kernels are read (statements, per-system windows) and, in the conformance slice, executed on the host (launcher runs every thread of a 1 x 2 grid over a batch of 3 systems, ASan/UBSan) and compared per system with the dense back-end.", "DESIGN.md §2 C03"),
+            "Subscripts are compile-time constants evaluated through the rendered macros; the cuSPARSE kernels are read (statements, per-system windows) and, in the conformance slice, executed on the host (launcher runs every thread of a 1 x 2 grid over a batch of 3 or NSPECIES+1 systems, ASan/UBSan) and compared per system with the dense back-end; sparse and Odeint are compiled and compared with dense the same way (mu/gamma at their -1 defaults included).", "DESIGN.md §2 C03"),
     "C04": ("exploration", "bounded-exhaustive enumeration of balanced networks; polynomial identity of weighted sums",
-            "All balanced reactions (<=3 reactants, <=3 products) over a by-construction species table and all pairs from a pool (electron spellings, gas/ice, ortho/para, isotopologues, dust grains in three charge states): element- and charge-weighted sums of the emitted ydot polynomials are identically zero; GetElementAbund text equals the count-weighted abundance sum.",
+            "All balanced reactions (<=3 reactants, <=3 products) over a by-construction species table and all pairs from a pool (electron spellings, gas/ice, ortho/para, isotopologues, dust grains in three charge states, molecules with 11-24 atoms of one element): element- and charge-weighted sums of the emitted ydot polynomials are identically zero; GetElementAbund text equals the count-weighted abundance sum.",
             "Compositions come from the table the names were built from, never from naunet's parser.", "DESIGN.md §2 C04"),
     "C05": ("exploration", "bounded-exhaustive enumeration of (format,type,alpha,beta,gamma); rendered EvalRates compiled with g++ and evaluated on a physical grid vs published laws",
             "Every (format, type/formula/code) of the gas-phase tables is reached through its own line format (own encoder -> naunet parser) and through the API, crossed with (alpha,beta,gamma) in A^3 (signed, zero, integer-valued, extreme). The rendered naunet_rates.cpp is compiled by g++ against the API shim and EvalRates is evaluated on a 36-point grid; each value must equal the published law (rel 1e-12 / same inf-nan class). Every emitted statement must be a C expression (E4, confirmed by g++).",
             "Reference laws are my transcription (mc/ref/ratelaws.py); helper (shielding) values are taken from the compiled helpers. Coefficients/physical parameters range over finite grids, not R.", "DESIGN.md §2 C05"),
     "C06": ("exploration", "bounded-exhaustive enumeration of window shapes x format spellings; compiled EvalRates evaluated at exact boundary doubles",
-            "All window shapes (none, 0/0, lower/upper only, both, adjacent pieces, inexact/tiny/huge bounds) in every spelling of the 6 formats and the API; compiled EvalRates is evaluated at each bound, its neighbouring doubles, mid-points and extremes: k equals the law inside the window and exactly 0.0 outside; adjacent pieces have exactly one active member at every temperature.",
+            "All window shapes (none, 0/0, lower/upper only, both, empty, inverted, adjacent pieces, inexact/tiny/huge bounds) in every spelling of the 6 formats and the API; compiled EvalRates is evaluated at each bound, its neighbouring doubles, mid-points and extremes: k equals the law inside the window and exactly 0.0 outside; adjacent pieces have exactly one active member at every temperature.",
             "Window predicate as stated in the property; KROME operator spellings are read as plain bounds.", "DESIGN.md §2 C06"),
     "C07": ("exploration", "bounded-exhaustive enumeration of encoded lines and file arrangements per format; field-by-field comparison with the abstract reaction that was encoded",
-            "For each of the six formats every (reactant count, product count) layout x name classes (incl. column-filling names) x every type code, numbers^3 x index x windows are encoded by my own encoder and parsed by naunet; reactants/products (multisets), alpha/beta/gamma, window, index, type must equal the abstract reaction; markers never become species; every arrangement of <=4 items (data, blank, whitespace, KROME comment/directive lines) gives one reaction per data line in order. KROME column layouts are data too: 8 @format directives (column orders, 1-3 R, 1-5 P, with/without idx and window columns, key case) x every (reactant, product) count x limit spellings, one directive per file and switching inside one file.",
+            "For each of the six formats every (reactant count, product count) layout x name classes (incl. column-filling names) x every type code, numbers^3 x index x windows are encoded by my own encoder and parsed by naunet; reactants/products (multisets), alpha/beta/gamma, window, index, type must equal the abstract reaction; markers never become species (reactant side by type code, product side for every marker token at every position); every arrangement of <=4 items (data, blank, whitespace, KROME comment/directive lines) gives one reaction per data line in order. KROME column layouts are data too: 8 @format directives (column orders, 1-3 R, 1-5 P, with/without idx and window columns, key case) x every (reactant, product) count x limit spellings, one directive per file and switching inside one file.",
             "Encoders follow the published column layouts (mc/ref/formats.py). UMIST NE>1 lines are judged in a separate sub-check (open known finding).", "DESIGN.md §2 C07"),
     "C08": ("exploration", "bounded-exhaustive enumeration of names printed from compositions under 4 configurations of the global symbol tables",
-            "All singles, all ordered pairs (every adjacent symbol pair) and a family of triples of the configured chemical symbols x counts x ortho/para labels x surface prefixes/groups x charges are printed to names; Species(name) must give back exactly the composition, charge, phase, gas-phase counterpart, mass number, is_atom and (under replacement) the rewritten name; grain symbols with groups, electron spellings, pseudo-element affixes and foreign-character insertions (must raise) are enumerated as well. One fresh process per configuration slice.",
+            "All singles, all ordered pairs (every adjacent symbol pair) and a family of triples of the configured chemical symbols x counts x ortho/para labels x surface prefixes/groups x charges are printed to names; Species(name) must give back exactly the composition, charge, phase, gas-phase counterpart, mass number, is_atom and (under replacement) the rewritten name; grain symbols with groups, electron spellings, pseudo-element affixes foreign-character insertions and leading counts (must raise) and symbols added through add_known_elements are enumerated as well. One fresh process per configuration slice.",
             "Only names whose intended tokenisation is the unique (or unique fewest-token) reading are judged; mass numbers from my own isotope table.", "DESIGN.md §2 C08"),
     "C09": ("exploration", "bounded-exhaustive enumeration of species sets over naming conventions; cross-artefact comparison",
-            "All subsets (size <=4) of a pool covering the naming conventions (charges, ortho/para, surface under two prefixes, grains with groups, excited and cyclic species, both electron spellings), entered through reactions and through required_species, x 4 back-ends: macros are a bijection onto 0..NSPECIES-1, identifiers legal and distinct, two spellings give one slot, and naunet_macros.h, constant_indexes.py, constants.py, the NetworkConfiguration summary, the render command's summary and naunet_enzo.h (A_ table and ENZO_NSPECIES) agree in count and order.",
+            "All subsets (size <=4) of a pool covering the naming conventions (charges, ortho/para, surface under two prefixes, grains with groups, excited and cyclic species, both electron spellings), entered through reactions and through required_species, x 4 back-ends: macros are a bijection onto 0..NSPECIES-1, identifiers legal and distinct, two spellings give one slot, and naunet_macros.h, constant_indexes.py, constants.py, the NetworkConfiguration summary, the render command's summary and the Enzo patch (A_ table, ENZO_NSPECIES, wrapper load/store, field-lookup declarations/definitions/calls, per-species lists of every patched file) agree in count and order.",
             "Species identity of the reference is stated in the evidence assumptions; render-command and Enzo artefacts are checked on an index-determined slice.", "DESIGN.md §2 C09"),
     "C10": ("exploration", "exhaustive enumeration of the configuration space; g++ -fsyntax-only of every rendered translation unit against an API shim",
-            "format-set x grain model x back-end x shielding tables x thermal: each configuration renders a probe network holding one reaction of every type the combination can produce (combinations refused in Python are recorded) and every src/*.cpp must pass g++ without diagnostics about undeclared or redefined names; every data line of every probe file is also rendered alone (ice/grain lines under each dust model), so that a symbol must be declared by the reaction that uses it.",
-            "SUNDIALS/Boost are a hand-written shim; a diagnostic about a shim name is a harness error. Only name diagnostics are judged. PYMODULE and CUDA code are not compiled.", "DESIGN.md §2 C10"),
+            "format-set x grain model x back-end x shielding tables x thermal: each configuration renders a probe network holding one reaction of every type the combination can produce (combinations refused in Python are recorded) and every src/*.cpp must pass g++ without diagnostics about undeclared or redefined names; every data line of every probe file is also rendered alone (ice/grain lines under each dust model), so that a symbol must be declared by the reaction that uses it. naunet.cpp is also compiled as the python module (-DPYMODULE, pybind11 stand-in); for the full probes the units src/CMakeLists.txt lists are linked (undefined / doubly defined symbols are violations); ODE modifiers written in dust-model deriveds and networks without atomic H are further configurations.",
+            "SUNDIALS/Boost are a hand-written shim; a diagnostic about a shim name is a harness error. Only name diagnostics are judged. The cuSPARSE back-end is outside this property's quantification (DESIGN §7).", "DESIGN.md §2 C10"),
     "C11": ("exploration", "exhaustive enumeration of process x dust model x species x entry path; compiled EvalRates vs independent transcription of the model formulae",
             "Every (process, dust model) pair is enumerated for species that differ in mass number, binding energy and yield, through Leeds lines, UCLCHEM lines and the native API, with and without user binding-energy/yield tables and grain species; the rendered EvalRates is compiled by g++ and must equal the transcription of the documented model on (Tgas,Tdust) x (mantle present / absent); the model x process matrix must refuse what a model does not implement; eb_<alias> constants must carry the reacting species' own binding energy; for the threshold-gated processes the thresholds are also placed exactly on, one ulp below and one ulp above each binding energy.",
             "Numeric prefactors and coverage factors are those of the implementations the classes cite (Walsh+2015, UCLCHEM v1.3) - listed in the evidence assumptions.", "DESIGN.md §2 C11"),
     "C12": ("exploration", "bounded-exhaustive enumeration of expression trees of the translator's grammar; Fortran-semantics evaluator vs C-semantics evaluation of the emitted text",
-            "All binary expression trees with <=3 leaves over a 12-leaf alphabet (thorough: + all 4-leaf trees over 4 leaves), printed with minimal and full parentheses, function wrappers, abundance references, near-miss inputs and all 3544 bundled KROME rate expressions are translated by the real KROMEReaction.rateexpr; the emitted C (read by E4 with C typing) must have the value my Fortran evaluator assigns to the source on 5 valuations, and every n(idx_X) must resolve to X's macro (all one-letter element indices x charge suffixes x three contexts are enumerated separately).",
+            "All binary expression trees with <=3 leaves over a 12-leaf alphabet (thorough: + all 4-leaf trees over 4 leaves), printed with minimal and full parentheses, function wrappers, abundance references, near-miss inputs and all 3544 bundled KROME rate expressions are translated by the real KROMEReaction.rateexpr; the emitted C (read by E4 with C typing) must have the value my Fortran evaluator assigns to the source on 5 valuations, and every n(idx_X) must resolve to X's macro (all one-letter element indices x charge suffixes x three contexts are enumerated separately). Powers with special-cased exponents in every operator context, quotients of integer literals and the shortcut variables (Te, invT, T32 ...) are families of their own.",
             "Own Fortran evaluator is the reference (precedence, right-assoc **, integer typing). Disagreements are classified by which wrong reading reproduces the C value.", "DESIGN.md §2 C12"),
     "C13": ("exploration", "bounded-exhaustive enumeration of networks x index patterns x modifier key subsets; differential (with/without modifier, entry path vs entry path)",
-            "Networks of 2-4 reactions under five index patterns (distinct, shared, unindexed -> re-indexed, mixed, zero-based), every subset of (present indices + one absent index) as rate-modifier keys, four ODE-modifier shapes: the rendering with modifiers may differ from the rendering without exactly at the targeted rate statements and by exactly factor x product of abundances on the named species; a slice of cases goes through Network.export -> render and init -> render in fresh processes and must give identical rate text, RHS and Jacobian polynomials; every rate statement must write the slot of its own reaction (one statement per reaction, position order).",
+            "Networks of 2-4 reactions under five index patterns (distinct, shared, unindexed -> re-indexed, mixed, zero-based), every subset of (present indices + one absent index) as rate-modifier keys, four ODE-modifier shapes: the rendering with modifiers may differ from the rendering without exactly at the targeted rate statements and by exactly factor x product of abundances on the named species; a slice of cases goes through Network.export -> render and init -> render in fresh processes and must give identical rate text, RHS and Jacobian polynomials; every rate statement must write the slot of its own reaction (one statement per reaction, position order); the same modifiers given to the constructor, assigned through the setters and entered in place into the accessors' tables must render identically.",
             "Effective index of an unindexed network = position (as TemplateLoader.render re-indexes). Values with ',' are outside what init's option grammar can express.", "DESIGN.md §2 C13"),
     "C14": ("model_checking", "explicit-state breadth-first search over operation histories on real Network objects, states de-duplicated by a canonical key, reference model compared on every transition",
             "BFS over all histories of a 24-operation menu (add x7, add from file, remove by index/list/instance/instances, three allowed lists, two required lists, de-duplicate, append depletion/desorption, reindex) to depth 3 (quick) / 5 (thorough) and of a reduced 10-operation menu to depth 7; every transition calls the real method on a fresh Network replayed from the history and compares reaction list, species, sources/sinks, where_species, allowed-filter and index macros (vs a one-shot construction) with a boring reference model; every history is also executed with all public observers called after every operation and must end in the same observable state. Plus allowed-setter vs constructor on all add sequences <=3 and the extend command on 3 inputs x 8 flag sets x 5 species options.",
             "Canonical key includes the cached species sets, so merged states have equal futures. Reaction identity classes of the pool are stated in the evidence.", "DESIGN.md §2 C14"),
     "C15": ("exploration", "bounded-exhaustive enumeration of reaction lists x comparison modes; O(n^2) pairwise reference",
-            "All lists of length <=5 (quick <=4) over a pool of 8 reactions (two bases; permuted reactants, permuted products, other window, other type, unknown type) x modes default/brief/minimal/short: reported indices, reported reactions and first members equal the pairwise reference; removing the reported reactions leaves one member per class and a second call reports nothing.",
+            "All lists of length <=5 (quick <=4) over a pool of 11 reactions (two bases, a multiplicity-only pair; permuted reactants/products, windows differing in one or both bounds, other type, unknown type), a second pool (electron spellings, labels, int-typed bounds) and a third (reactions with an empty side) x modes default/brief/minimal/short: reported indices, reported reactions and first members equal the pairwise reference; removing the reported reactions leaves one member per class and a second call reports nothing; searches after an in-place edit of a reaction are enumerated too.",
             "Lists on which the default-mode relation is not transitive (UNKNOWN type bridging two known types) are enumerated but not judged.", "DESIGN.md §2 C15"),
     "C16": ("exploration", "bounded-exhaustive enumeration of species sets; exact rational evaluation of the emitted renormalisation text and exact solve",
-            "All species sets {H} + up to 4 of 12 others (ions, isotopologues, multi-element molecules, ice, grains, electrons) x positive abundance vectors x reference ratios: InitRenorm, RenormAbundance and GetElementAbund text is read into exact polynomials, the linear system is solved over Q, and afterwards every element/H-nuclei ratio equals the reference, electrons are untouched and matching ratios give the identity; a literal division by zero, a non-C factor or a subscript outside NELEMENTS/NEQUATIONS is a violation. Each set is built twice (sorted slot order; a linking reaction that moves the last-sorted species - the electron - to slot 0). A slice is compiled: the real SetReferenceAbund (opt 0 with un-normalised references, opt 1) + Renorm (called twice on one object) against the shim's LU must land on the exact solution.",
+            "All species sets {H} + up to 4 of 12 others (ions, isotopologues, multi-element molecules, ice, grains, electrons) x positive abundance vectors x reference ratios: InitRenorm, RenormAbundance and GetElementAbund text is read into exact polynomials, the linear system is solved over Q, and afterwards every element/H-nuclei ratio equals the reference, electrons are untouched and matching ratios give the identity; a literal division by zero, a non-C factor or a subscript outside NELEMENTS/NEQUATIONS is a violation. Each set is built twice (sorted slot order; a linking reaction that moves the last-sorted species - the electron - to slot 0). A slice is compiled: the real SetReferenceAbund (opt 0 with un-normalised references, opt 1) + Renorm (called twice on one object) against the shim's LU must land on the exact solution, and so must the array the python entry point PyWrapRenorm returns (-DPYMODULE build, functional pybind11 stand-in).",
             "Exact arithmetic replaces the LU solve of SUNDIALS/uBLAS (equal up to rounding). Sets without atomic H are outside the generated Renorm (#ifdef IDX_ELEM_H).", "DESIGN.md §2 C16"),
     "C17": ("model_checking", "stateless exhaustive exploration of all interleavings of sequential client programs over the shared process-global tables, one fresh process per schedule; differential oracle against the client rendered alone",
-            "Six clients chosen to write different values into the same global tables (KIDA/default lists, UCLCHEM project through RenderCommand with replacement + binding energies, Leeds with custom lists and prefix G, KROME with directives, API-built unindexed ice network with a rate modifier, KIDA with an upper-case element list and no replacement) each run a short program of atomic API calls (build; render / render twice / edit, where_species, render / CLI render); every interleaving of every pair (thorough: and triple) within the length bound is executed on the real code in a fresh process and every render must hash to the client's reference hash, which itself must agree across interpreter hash seeds, repeated renders and 'render, edit, render' vs 'edit, render'.",
+            "Seven clients chosen to write different values into the same global tables (KIDA/default lists, UCLCHEM project through RenderCommand with replacement + binding energies, Leeds with custom lists and prefix G, two KROME files with different directives, API-built unindexed ice network with rate and ODE modifiers, KIDA with an upper-case element list and no replacement; the edit step adds a reaction, a required species and - for two clients - a shielding function) each run a short program of atomic API calls (build; render / render twice / edit, where_species, render / CLI render); every interleaving of every pair (thorough: and triple) within the length bound is executed on the real code in a fresh process and every render must hash to the client's reference hash, which itself must agree across interpreter hash seeds, repeated renders and 'render, edit, render' vs 'edit, render'.",
             "Scheduling points are API-call boundaries (single-threaded library). No state merging, so no canonicalisation argument is needed.", "DESIGN.md §2 C17"),
     "C18": ("exploration", "bounded-exhaustive enumeration of networks of every format; write/read/write cycles compared field by field and byte by byte; export + re-render compared by compiled evaluation",
-            "Every line of C07's space (5 typed formats, 200 reactions per file) is read, written in the native format, read back and written again: reactions in order with multisets, window, type, index, source tag and printed-precision coefficients must be preserved and the second cycle must be byte-identical. For every gas-phase (format,type), a KROME rate and every (entry path, dust model, process), a one-reaction project is exported and re-rendered from its own files; both EvalRates are compiled by g++ and must evaluate equal, or the re-render must raise.",
+            "Every line of C07's space (5 typed formats, 200 reactions per file) is read, written in the native format, read back and written again: reactions in order with multisets, window, type, index, source tag and printed-precision coefficients must be preserved and the second cycle must be byte-identical. For every gas-phase (format,type), a KROME rate and every (entry path, dust model, process), a one-reaction project (and projects with a two-term fit) is exported and re-rendered from its own files; both EvalRates are compiled by g++ and must evaluate equal over the whole rate table, or the re-render must raise. A network edited after reading (remove, new coefficients, reindex) goes through the same cycle.",
             "Refusals and non-compiling re-renders are not violations (not silent). Physical values are set identically on both sides (zeta = zeta_cr, zeta_xr = 0).", "DESIGN.md §2 C18"),
     "C19": ("fault_enumeration", "stateless depth-first enumeration of integrator outcome sequences (choice vectors with prefix replay) compiled against the rendered Solve/HandleError with a scripted mock integrator",
-            "The rendered naunet.cpp (dense, sparse, a thermal network with NEQUATIONS = NSPECIES + 1, odeint) is compiled with a mock integrator of y'=1, so the final state of every equation measures integrated time. Every sequence of outcomes within the pass alphabets - success, fail(flag, progress fraction) per CVode call at the offered positions of all five recovery levels, failing re-initialisation - is executed; on each: SUCCESS iff exactly dt was integrated and the last answer was a success, unrecoverable flags/failed re-init/level-5 failure give FAIL with the initial state logged, no integrator call after an unrecoverable flag, tout strictly increasing. Odeint: step counts around the budget and exceptions from the system function.",
+            "The rendered naunet.cpp (dense, sparse, a thermal network with NEQUATIONS = NSPECIES + 1, odeint) is compiled with a mock integrator of y'=1, so the final state of every equation measures integrated time. Every sequence of outcomes within the pass alphabets - success, fail(flag, progress fraction) per CVode call at the offered positions of all five recovery levels, failing re-initialisation - is executed; on each: SUCCESS iff exactly dt was integrated and the last answer was a success, unrecoverable flags/failed re-init/level-5 failure give FAIL with the whole initial state (all NEQUATIONS entries) logged, the integrator configured with the object's atol/rtol/mxsteps, a second Solve on the same object behaving like the first, no integrator call after an unrecoverable flag, tout strictly increasing. Odeint: step counts around the budget and exceptions from the system function.",
             "The mock reproduces the CVODE calling convention (tret = time reached, yout advanced), not its numerics. Failure positions are restricted per pass (stated in the evidence); a capped pass is reported as such. The cuSPARSE Solve is compiled for the host against an emulation of the CUDA/cuSPARSE/cuSOLVER names it touches, kernels stubbed.", "DESIGN.md §2 C19"),
     "C20": ("exploration", "pairwise-exhaustive enumeration of init option values around a base configuration; field comparison of the written TOML and byte comparison of CLI vs API renderings in sibling fresh processes",
-            "Every init option alone over its value alphabet (lists with/without spaces, key:value and key=value tables, empty values, values containing the separator, prefixes, all legal and illegal solver triples) and all value pairs (quick: of the six interacting options; thorough: of all options) go through `naunet init --render`; the written naunet_config.toml must equal the requested description field by field and the rendered include/src/python trees must be byte-identical to the equivalent network rendered through the public API in a fresh process; bundled examples go through `naunet example`. Export clause: API networks over (element lists, allowed/required species, symbols, dust model, ice species, binding/yield overrides, cooling, shielding, modifiers, solver) singly and pairwise -> Network.export -> TOML fields vs the network -> `naunet render --force` inside the exported project -> same tree (RHS/Jacobian files compared as exact polynomials per slot, everything else byte for byte).",
+            "Every init option alone over its value alphabet (lists with/without spaces, key:value and key=value tables, empty values, values containing the separator, prefixes, all legal and illegal solver triples) and all value pairs (quick: of the six interacting options; thorough: of all options) go through `naunet init --render`; the written naunet_config.toml must equal the requested description field by field and the rendered include/src/python trees must be byte-identical to the equivalent network rendered through the public API in a fresh process; bundled examples go through `naunet example`; `--loading` modules registering reactions / cooling names, user ice tables (with element replacement) and `render --patch enzo` vs the API patch are further families. Export clause: API networks over (element lists, allowed/required species, symbols, dust model, ice species, binding/yield overrides, cooling, shielding, modifiers, solver) singly and pairwise -> Network.export -> TOML fields vs the network -> `naunet render --force` inside the exported project -> same tree (RHS/Jacobian files compared as exact polynomials per slot, everything else byte for byte).",
             "Reference reading of the option grammar is stated in the evidence. The ism example (network file not shipped) is not run.", "DESIGN.md §2 C20"),
 }
 
